@@ -253,6 +253,20 @@ class SimFS:
         self.fds[fd] = inode
         return fd
 
+    def stat(self, path, *a, **k):
+        import stat as _stat
+
+        path = self.norm(path)
+        if path in self.dirs:
+            return _os.stat_result((_stat.S_IFDIR | 0o755, abs(hash(path)) % (1 << 30), 1, 2, 0, 0, 4096, 0, 0, 0))
+        if path in self.files:
+            ino = self.files[path]
+            return _os.stat_result((_stat.S_IFREG | 0o644, ino.ino, 1, 1, 0, 0, len(ino.data), 0, 0, 0))
+        raise self._missing(path)
+
+    def getsize(self, path):
+        return self.stat(path).st_size
+
     def fstat(self, fd):
         import stat as _stat
 
